@@ -8,6 +8,9 @@
                     values)
                   + interleave (threads sharing a domain see what they see alone, under ANY interleaving of the
                     container-level events of their calls).
+   Process-wide objects are cells of the module region: (OMod, 0) = DEFAULT_TYPES, (OMod, 1) = every other static object of
+   the library (module globals, class attributes, default-argument objects such as the dict of
+   PDDLFunction.__init__(repeating_variables={})); C07_module_frame: no operation writes them.
    The model has one switch per repair (fix15, fix16, fix17, fix18); the tree as it stands is
    (true, true, FALSE, true): D15, D16, D18 repaired, D17 open.
      - C07_frame, C07_frame_reach, C07_repeat, C07_writes_private, C07_thread_discipline, C07_interleave_threads hold
